@@ -336,10 +336,24 @@ func (w *oracleWorkload) Next(block int) []rig.Tx {
 			case rng.Intn(3) == 0:
 				// raised as well as lowered, also while a batch is open: the open batch keeps the threshold it was issued with
 				msg.ResponseThreshold = uint32(1 + rng.Intn(3))
-				if rng.Intn(2) == 0 {
+				switch rng.Intn(4) {
+				case 0, 1:
 					for _, pa := range w.provs {
 						msg.Providers = append(msg.Providers, pa.Addr.String())
 					}
+				case 2:
+					// the list is replaced by a shorter one, also while a batch is open: a provider that batch was issued to
+					// is dropped, and its answer to the open batch still counts
+					drop := rng.Intn(len(w.provs))
+					for j, pa := range w.provs {
+						if j != drop {
+							msg.Providers = append(msg.Providers, pa.Addr.String())
+						}
+					}
+					if int(msg.ResponseThreshold) > len(msg.Providers) {
+						msg.ResponseThreshold = uint32(len(msg.Providers))
+					}
+					w.run.Count("feed-provider-list-shortened", 1)
 				}
 			}
 			out = append(out, r.Mk(actor, &orTag{Kind: "edit", Feed: name, Role: role}, msg))
